@@ -121,6 +121,7 @@ class Session:
             from .conc import Sched
             vm.use_solver = False
             vm.prune_branches = False
+            bexp.USE_IMP = True
             sch = Sched(vm, self.steps, racy=self.racy)
             vm.sched = sch
             self.finals = sch.run(s0)
@@ -493,7 +494,7 @@ def run_session_spec(spec):
                 if nat["failed"] or nat.get("error"):
                     labels = {r["label"] for r in out["results"] if r["verdict"] == "sat"}
                     if not (set(nat["failed"]) <= labels):
-                        out["inconclusive"] = f"VM and native run disagree on witness inputs: {nat}"
+                        out["inconclusive"] = f"VM and native run disagree on witness inputs {smp['inputs']}: {nat}"
                 tv += 1
         out["traces_validated"] = tv
     except Inconclusive as e:
